@@ -4,8 +4,8 @@ From Coq Require Export List NArith Bool Lia.
 Export ListNotations.
 Local Open Scope N_scope.
 
-Definition byte := N.
-Definition bytes := list N.
+Notation byte := N (only parsing).
+Notation bytes := (list N) (only parsing).
 
 Definition CR : N := 13.
 Definition LF : N := 10.
